@@ -1,0 +1,20 @@
+//go:build verif
+
+package actionlint
+
+// C01: preconditions of helpers that are only reached behind a guard of their caller (hand-written where the
+// inference pass, which proposes `p != nil` for parameters only, cannot state them). Each is an obligation at
+// every call site.
+
+// RuleAction.VisitStep returns early for a step without `uses:`; the checks below are only reached with one
+//@ func (*RuleAction).checkRepoAction
+//@   requires [C01] exec != nil && exec.Uses != nil
+//@ func (*RuleAction).checkDockerAction
+//@   requires [C01] exec != nil && exec.Uses != nil
+//@   requires [C01] hasprefix(uri, "docker://")
+//@ func (*RuleAction).checkLocalAction
+//@   requires [C01] action != nil && action.Uses != nil
+//@ func (*RuleAction).checkLocalActionMetadata
+//@   requires [C01] action != nil && action.Uses != nil
+//@ func (*RuleAction).checkAction
+//@   requires [C01] exec != nil && exec.Uses != nil
